@@ -74,7 +74,8 @@ pub fn vector_set(vm: &mut Vm) -> Result<VCell, Error> {
 
 pub fn vector_fill(vm: &mut Vm) -> Result<VCell, Error> {
     pop_argc(vm, 2, Some(2), "vector-fill!")?;
-    let value = vm.heap.get(vm.stack.pop()?);
+    // keep the reference: every element must be the very object passed in
+    let value = vm.stack.pop()?.clone();
     let vector = pop_vector(vm)?;
     for idx in 0..vector.len() {
         vector.put(idx, value.clone());
@@ -108,6 +109,11 @@ pub fn list_to_vector(vm: &mut Vm) -> Result<VCell, Error> {
     while list.is_pair() {
         outv.push(list.as_car()?);
         list = vm.heap.get(&list.as_cdr()?);
+    }
+    if !list.is_nil() {
+        return Err(InvalidSyntax(
+            "list->vector requires a proper list".into(),
+        ));
     }
     Ok(VCell::vector(outv))
 }
